@@ -5,14 +5,16 @@ import persist_common as pc
 MODEL = "layer"
 SHRINKABLE = True
 RULE = ("generated glyph sets (0-6 glyphs over 8 names; unicodes, components, image reference, outline kind) x "
-        "{unread, partially pre-read, fully pre-read, memory-only twin} x op lists (get/new/insert/delete/rename/"
-        "setUnicodes/edit/save/first access to unicodeData); all layer-level queries compared after every op; "
+        "{unread, partially pre-read, fully pre-read, memory-only twin} x op lists (get/new/insert/delete/rename - also onto "
+        "present names - /setUnicodes/unicode setter/read-modify-write of unicodes/edit/reload of read and unread glyphs/save/first "
+        "access to unicodeData/look-ups/glyph bounds, with ask-edit the base glyph-ask again scenarios); all layer-level queries "
+        "compared after every op; "
         "non-trivial = a non-empty glyph set and at least one mutating op; distinct = distinct (content, variant, ops); plus "
         "whole fonts (all top-level parts, images, data, layers, glyph structure edits as first touch) x edit/save histories "
         "in every save mode, each run unread / fully read / partly read / as a memory-only twin against one shadow content")
 ASSUMPTIONS = [
-    "renames never target a name that is present (the code silently overwrites; outside the property's domain)",
-    "glyph unicodes lists carry no duplicates (glifLib enforces on read)",
+    "glyph unicodes lists carry no duplicates here (glifLib enforces on read; lists with repeated code points are C09's histories)",
+    "glyph.bounds / controlPointBounds are judged by the oracle only, against a memory-only twin built from the shadow content",
     "which glyphs are loaded is not compared (loading a composite glyph also loads its bases): all compared queries are "
     "functions of the abstract content, which is the property; the one load-dependent query (glyphsWithOutlines on glyphs "
     "whose contours have no on-curve segment point) is judged by the oracle only and masked in the model comparison",
@@ -20,7 +22,7 @@ ASSUMPTIONS = [
 ]
 TRUSTED = ["UFOs are written with fontTools.ufoLib directly; the GLIF scanners of ufoLib (getUnicodes, getComponentReferences, "
            "getImageReferences) and defcon's _fetchHasOutlineData are exercised, not modelled"]
-JUDGED = ("keys", "comps", "images", "outlines", "uni", "saved")
+JUDGED = ("keys", "comps", "images", "outlines", "uni", "saved", "bounds")
 PROP = "C07"
 
 
@@ -28,15 +30,22 @@ MODES = ["inplace", "inplace", "new", "overufo"]
 PARTS = ["info", "kerning", "groups", "features", "lib"]
 
 
+# renames also onto names that are present (the glyph there is replaced), the single-value unicode setter, read-modify-
+# write on the list the unicodes getter hands out, reloads of glyphs that have not been read, the bounds of glyphs (of
+# composites above all: they follow the base glyph) and, in a quarter of the groups, "ask, edit what the answer depends on,
+# ask again" for the bounds of a composite
+OPTS = dict(rename_onto_rate=0.3, setter_rate=0.1, via_rate=0.15, lookup_rate=0.3, bounds_rate=0.7, scenario_rate=0.3)
+
+
 def generate(rng, tier):
     groups, maxops = (150, 14) if tier == "quick" else (4000, 30)
     for _ in range(groups):
-        for c in lc.gen_group(rng, maxops, uni_weight=1.0, incoherent_rate=0.3):
+        for c in lc.gen_group(rng, maxops, uni_weight=1.0, incoherent_rate=0.3, opts=OPTS):
             yield c
     # whole fonts (info, kerning, groups, features, lib, images, data, layers, glyph structure): one content and one
     # edit/save history, run with nothing read beforehand, with everything read beforehand, with a random subset read, and
     # on a memory-only twin; every run must end with the same UFOs and the same memory (oracle only: the shadow content)
-    n = 60 if tier == "quick" else 1500
+    n = 90 if tier == "quick" else 1500
     for _ in range(n):
         c = pc.gen_case(rng, tier, MODES, maxops=10 if tier == "quick" else 24)
         c["whole_font"] = True
@@ -48,14 +57,15 @@ def generate(rng, tier):
         elif r < 0.4 and c["spec"]["images"]:
             n = rng.choice(sorted(c["spec"]["images"]))
             c["ops"] = [["img", n, 9], ["imgget", n]] + c["ops"]
-        elif r < 0.75:
+        elif r < 0.8:
             # the first thing that happens to a glyph is a structure edit (nothing of it has been looked at), then a save
             cands = [(l["name"], gn) for l in c["spec"]["layers"] for gn in sorted(l["glyphs"])]
             if cands:
                 ln, gn = rng.choice(cands)
                 x = rng.randint(0, 200)
                 pts = [[x, 0, "line", False, None, None], [x + 30, 0, "line", False, None, None], [x + 10, 40, "line", False, None, None]]
-                edit = rng.choice([["gfield", ln, gn, "inscontour", [rng.choice(["first", "last"]), {"id": None, "points": pts}]],
+                edit = rng.choice([["gfield", ln, gn, "inscontour", ["first", {"id": None, "points": pts}]],
+                                   ["gfield", ln, gn, "inscontour", ["last", {"id": None, "points": pts}]],
                                    ["gfield", ln, gn, "addanchor", [5, 6, "top", None, None]],
                                    ["gfield", ln, gn, "clearcomps", None], ["gfield", ln, gn, "move", [3, 4]]])
                 c["ops"] = [edit, ["save", rng.choice(MODES), c["structure"]]] + c["ops"]
